@@ -143,7 +143,7 @@ def _run(ctx, pool):
     # ---- the machine itself (design level; a failure here is a machinery problem, never a verdict):
     # every junk-free reachable state is a truncation of the picked statement's token sequence
     san = vlib.run_tlc(ctx, "SqlGrammarMC", "SqlGrammarMC_machine.cfg", tag="machine", timeout=600,
-                       cfg_text=fe.cfg("S", sorted(fe.SLICE_NAMES), stmts="MC_Cover", emit="off",
+                       cfg_text=fe.cfg("S", ["given"] if ctx.quick() else sorted(fe.SLICE_NAMES), stmts="MC_Cover", emit="off",
                                        invariants=("TypeOK", "TruncationInv", "ConditionsExpressible", "GrammarUsesOnly")))
     vlib.tlc_must_ok(ctx, san, "SqlGrammarMC machine invariants")
     configs.append(dict(run="machine invariants (TypeOK, TruncationInv, ConditionsExpressible, GrammarUsesOnly), no junk",
